@@ -737,18 +737,25 @@ def canon_tree(suites):
 
 
 def real_ranks(suites):
-    """{dotted path: the rank the loader stored} for every suite and test"""
+    """{dotted path: the rank the loader stored} for every suite and test (a test whose dotted path is also the path of a
+    suite — a test named like a sibling sub-suite — is stored under `path + TEST_KEY_SUFFIX`)"""
     out = {}
+    tests = {}
 
     def walk(s):
         out[s.path] = s.rank
         for t in s.get_tests():
-            out[t.path] = t.rank
+            tests[t.path] = t.rank
         for x in s.get_suites():
             walk(x)
     for s in suites:
         walk(s)
+    for k, r in tests.items():
+        out[k + TEST_KEY_SUFFIX if k in out else k] = r
     return out
+
+
+TEST_KEY_SUFFIX = "\x00test"
 
 
 def model_tree(tree):
